@@ -256,35 +256,46 @@ class FactFlow:
         return self.state[node_id] is not None and entails(self.at(node_id), req)
 
     # ------------------------------------------------------------ refutation by path witness
-    def refute(self, node_id: int, req: Aff, *, max_paths: int = 4000) -> Optional[List[Tuple[int, object]]]:
-        """A path entry -> node on which the accumulated facts entail ``req <= -1``; None if none found."""
+    def refute(self, node_id: int, req: Aff, *, max_states: int = 6000) -> Optional[List[Tuple[int, object]]]:
+        """A path entry -> node on which the accumulated facts entail ``req <= -1``; None if none found.
+        Breadth-first over (node, fact set) states with a visited set (shortest witness first)."""
+        from collections import deque
         cfg = self.cfg
         neg = normalise(-req - Aff.k(1))
-        count = [0]
-        result: List[Optional[list]] = [None]
-
-        def dfs(n: int, facts: Set[Aff], path: list, visits: Dict[int, int]):
-            if result[0] is not None or count[0] > max_paths:
-                return
+        start = (cfg.entry, frozenset(self.assume))
+        prev = {start: None}
+        q = deque([start])
+        n_states = 0
+        while q:
+            state = q.popleft()
+            n, facts = state
+            n_states += 1
+            if n_states > max_states:
+                return None
             if n == node_id:
-                count[0] += 1
-                if entails(facts, neg) and not _inconsistent(facts):
-                    result[0] = list(path)
-                return
-            if visits.get(n, 0) >= 2:
-                return
-            visits = dict(visits)
-            visits[n] = visits.get(n, 0) + 1
+                if entails(facts, neg) and not _pair_contradiction(list(facts)):
+                    path = []
+                    cur = state
+                    while prev[cur] is not None:
+                        p, lab = prev[cur]
+                        path.append((p[0], lab))
+                        cur = p
+                    path.reverse()
+                    return path
+                continue
             node = cfg.nodes[n]
             base = self.transfer_stmt(node, set(facts))
             for t, lab in cfg.succ[n]:
                 if lab == "exc":
                     continue
-                out = self.edge_facts(node, lab, base)
-                dfs(t, out, path + [(n, lab)], visits)
-
-        dfs(cfg.entry, set(self.assume), [], {})
-        return result[0]
+                out = frozenset(self.edge_facts(node, lab, base))
+                if _pair_contradiction(list(out)):
+                    continue            # infeasible branch
+                nxt = (t, out)
+                if nxt not in prev:
+                    prev[nxt] = (state, lab)
+                    q.append(nxt)
+        return None
 
 
 def _inconsistent(facts: Iterable[Aff]) -> bool:
